@@ -109,13 +109,15 @@ class Path:
     def untouched(self):
         """no slot of the subject container was read out, written or re-tagged on this path"""
         return not self.ms.contents and not self.reads and not self.writes and not self.lens \
-            and not self.ms.holes and not self.ms.extras
+            and not self.ms.holes and not self.ms.extras and not self.ms.replaced
 
     def contents_are(self, expect):
         """expect: list of (idx, (ktag, vtag)); the recorded overrides are exactly these"""
         cs = list(self.ms.contents)
         if len(cs) != len(expect):
             return False
+        if self.ms.replaced and not self.z.entails_eq(self.ms.len, len(cs)):
+            return False        # a whole new value was assigned over the container: untracked slots are not the entry's
         for idx, tags in expect:
             found = False
             for (i, t) in cs:
@@ -1072,6 +1074,11 @@ def bulk_iteration(props, pulled_by, key_of_item):
                'each pulled item must be inserted exactly once (found-and-replaced or appended)', it)
         if len(hits) + len(apps) != 1:
             return
+        if root_key(body)[2] == 'extend':
+            tgt = (apps or hits)[0][1]
+            it_req(E, props, 'FLOW', tgt in st.maps and st.maps[tgt].borrowed, nm + ':iteration',
+                   'extend must insert each pulled item into the receiver itself: an item parked in a temporary '
+                   'container is lost when a later item (or the source) panics, unlike inserting one by one', it)
         item = key_of_item(pulls[-1])
         def val_ok(t):
             return t == ('tuple',) or (item is not None and E.tag_mentions(t, item))
@@ -2647,10 +2654,10 @@ def _item_of_any(e):
 ITER_HOOKS = {
     (MAP, None, 'retain'): ({'C01'}, retain_iteration, {'predicate', 'kept', 'removed'}),
     (SET, None, 'retain'): ({'C07'}, retain_iteration, {'predicate', 'kept', 'removed'}),
-    (MAP, 'FromIterator', 'from_iter'): ({'C16'}, lambda pr: bulk_iteration(pr, _pulled_any, _item_of_any), {'item', 'hit', 'append'}),
-    (SET, 'FromIterator', 'from_iter'): ({'C16'}, lambda pr: bulk_iteration(pr, _pulled_any, _item_of_any), {'item', 'hit', 'append'}),
-    (MAP, 'From', 'from'): ({'C16'}, lambda pr: bulk_iteration(pr, _pulled_any, _item_of_any), {'item', 'hit', 'append'}),
-    (SET, 'From', 'from'): ({'C16'}, lambda pr: bulk_iteration(pr, _pulled_any, _item_of_any), {'item', 'hit', 'append'}),
+    (MAP, 'FromIterator', 'from_iter'): ({'C16', 'C12'}, lambda pr: bulk_iteration(pr, _pulled_any, _item_of_any), {'item', 'hit', 'append'}),
+    (SET, 'FromIterator', 'from_iter'): ({'C16', 'C12'}, lambda pr: bulk_iteration(pr, _pulled_any, _item_of_any), {'item', 'hit', 'append'}),
+    (MAP, 'From', 'from'): ({'C16', 'C12'}, lambda pr: bulk_iteration(pr, _pulled_any, _item_of_any), {'item', 'hit', 'append'}),
+    (SET, 'From', 'from'): ({'C16', 'C12'}, lambda pr: bulk_iteration(pr, _pulled_any, _item_of_any), {'item', 'hit', 'append'}),
     (MAP, 'Clone', 'clone'): ({'C15'}, clone_iteration, {'element'}),
     (SET, 'Clone', 'clone'): ({'C15'}, clone_iteration, {'element'}),
     (MAP, 'PartialEq', 'eq'): ({'C14'}, quantifier_iteration('eq'), {'continued'}),
@@ -2675,11 +2682,11 @@ ITER_HOOKS = {
     (INTER, 'Iterator', 'count'): ({'C08'}, merge_iteration('count'), {'counted', 'skipped'}),
     (MAP, 'Serialize', 'serialize'): ({'C20'}, serialize_iteration('serialize_entry', 2), {'entry'}),
     (SET, 'Serialize', 'serialize'): ({'C20'}, serialize_iteration('serialize_element', 1), {'entry'}),
-    ('serialization::Vi', 'Visitor', 'visit_map'): ({'C20'}, lambda pr: bulk_iteration(pr, _pulled_access('next_entry'), _item_of_access), {'item', 'hit', 'append'}),
-    ('set::serialization::Vi', 'Visitor', 'visit_seq'): ({'C20'}, lambda pr: bulk_iteration(pr, _pulled_access('next_element'), _item_of_access), {'item', 'hit', 'append'}),
+    ('serialization::Vi', 'Visitor', 'visit_map'): ({'C20', 'C12'}, lambda pr: bulk_iteration(pr, _pulled_access('next_entry'), _item_of_access), {'item', 'hit', 'append'}),
+    ('set::serialization::Vi', 'Visitor', 'visit_seq'): ({'C20', 'C12'}, lambda pr: bulk_iteration(pr, _pulled_access('next_element'), _item_of_access), {'item', 'hit', 'append'}),
     (MAP, None, 'get_disjoint_mut'): ({'C13'}, precheck_iteration, {'compared'}),
     ('&set::Set', 'Sub', 'sub'): ({'C08'}, sub_iteration, {'kept', 'skipped'}),
-    (SET, 'Extend', 'extend'): ({'C16', 'C07'}, lambda pr: bulk_iteration(pr, _pulled_any, _item_of_any), {'item', 'hit', 'append'}),
+    (SET, 'Extend', 'extend'): ({'C16', 'C07', 'C12'}, lambda pr: bulk_iteration(pr, _pulled_any, _item_of_any), {'item', 'hit', 'append'}),
 }
 
 
@@ -3036,10 +3043,10 @@ HANDLERS.update({
     (MAP, None, 'into_keys'): ({'C10'}, h_make_owner),
     (MAP, None, 'into_values'): ({'C10'}, h_make_owner),
     (SET, 'Extend', 'extend'): ({'C16', 'C07'}, h_bulk_extend),
-    (MAP, 'FromIterator', 'from_iter'): ({'C16'}, h_bulk_result),
-    (SET, 'FromIterator', 'from_iter'): ({'C16'}, h_bulk_result),
-    (MAP, 'From', 'from'): ({'C16'}, h_bulk_result),
-    (SET, 'From', 'from'): ({'C16'}, h_bulk_result),
+    (MAP, 'FromIterator', 'from_iter'): ({'C16', 'C12'}, h_bulk_result),
+    (SET, 'FromIterator', 'from_iter'): ({'C16', 'C12'}, h_bulk_result),
+    (MAP, 'From', 'from'): ({'C16', 'C12'}, h_bulk_result),
+    (SET, 'From', 'from'): ({'C16', 'C12'}, h_bulk_result),
     (MAP, 'Clone', 'clone'): ({'C15'}, h_clone_result),
     (SET, 'Clone', 'clone'): ({'C15'}, h_clone_result),
     (MAP, 'PartialEq', 'eq'): ({'C14'}, h_quantifier('eq', 'either')),
@@ -3066,8 +3073,8 @@ HANDLERS.update({
     (SET, None, 'symmetric_difference'): ({'C08'}, h_make_algebra('symmetric_difference')),
     (MAP, 'Serialize', 'serialize'): ({'C20'}, h_serialize('serialize_map', 'serialize_entry')),
     (SET, 'Serialize', 'serialize'): ({'C20'}, h_serialize('serialize_seq', 'serialize_element')),
-    ('serialization::Vi', 'Visitor', 'visit_map'): ({'C20'}, h_visit('next_entry')),
-    ('set::serialization::Vi', 'Visitor', 'visit_seq'): ({'C20'}, h_visit('next_element')),
+    ('serialization::Vi', 'Visitor', 'visit_map'): ({'C20', 'C12'}, h_visit('next_entry')),
+    ('set::serialization::Vi', 'Visitor', 'visit_seq'): ({'C20', 'C12'}, h_visit('next_element')),
     (MAP, 'Deserialize', 'deserialize'): ({'C20'}, h_deserialize('deserialize_map')),
     (SET, 'Deserialize', 'deserialize'): ({'C20'}, h_deserialize('deserialize_seq')),
     (MAP, None, 'get_disjoint_mut'): ({'C13'}, h_get_disjoint),
